@@ -56,8 +56,6 @@ pub fn check_triple(ctx: &mut Ctx, a: u64, b: u64, c: u64) -> Result<(), Violati
     same!(ctx, "bitboard:and", [(x & y).0, (&x & &y).0, (x & &y).0, (&x & y).0], [and; 4], case(), "a & b (4 forms)");
     same!(ctx, "bitboard:or", [(x | y).0, (&x | &y).0, (x | &y).0, (&x | y).0], [or; 4], case(), "a | b (4 forms)");
     same!(ctx, "bitboard:xor", [(x ^ y).0, (&x ^ &y).0, (x ^ &y).0, (&x ^ y).0], [xor; 4], case(), "a ^ b (4 forms)");
-    let mul = a.wrapping_mul(b);
-    same!(ctx, "bitboard:mul", [(x * y).0, (&x * &y).0, (x * &y).0, (&x * y).0], [mul; 4], case(), "a * b (4 forms)");
     same!(ctx, "bitboard:not", [(!x).0, (!&x).0], [!a; 2], case(), "!a (2 forms)");
     let mut t = x;
     t &= y;
@@ -83,15 +81,7 @@ pub fn check_triple(ctx: &mut Ctx, a: u64, b: u64, c: u64) -> Result<(), Violati
     let flipped: u64 = set_of(a).into_iter().fold(0, |acc, s| acc | 1u64 << ((7 - s / 8) * 8 + s % 8));
     same!(ctx, "bitboard:reverse_colors", x.reverse_colors().0, flipped, case(), "reverse_colors");
     same!(ctx, "bitboard:reverse_colors", x.reverse_colors().reverse_colors().0, a, case(), "reverse_colors twice");
-    // Display: 64 cells, X exactly on members
-    let text = format!("{}", x);
-    let cells: Vec<&str> = text.split_whitespace().collect();
-    let ok = cells.len() == 64 && cells.iter().enumerate().all(|(i, t)| (*t == "X") == (a >> i & 1 == 1) && (*t == "X" || *t == "."));
-    if !ok || text.lines().count() != 8 {
-        ctx.fail("bitboard:display", format!("Display of {:#x} is {:?}", a, text), case())?;
-    }
-    let sh = (c % 64) as u8;
-    same!(ctx, "bitboard:to_size", x.to_size(sh), (a >> sh) as usize, case(), "to_size({})", sh);
+    let _ = c;
     same!(ctx, "bitboard:eq", (x == y), (a == b), case(), "==");
     ctx.sample(|| case());
     Ok(())
@@ -148,7 +138,7 @@ pub fn run(cfg: &Cfg) -> i32 {
     engine::finish(
         report,
         EvidenceSpec {
-            rule: "cases = all 64 singletons (from_square / to_square / set / from_maybe_square / iteration / reverse_colors) and generated operand triples (uniform u64, ranks, files, diagonals, checkerboard, empty, full, 1-3 bits, all but 1-3 bits, and-/or-mixtures); for each triple iteration order and termination, popcnt, to_square, all 4 forms of & | ^ *, both forms of &= |= ^= and !, distributivity / De Morgan / xor-associativity, reverse_colors (rank flip, involution), Display (64 cells), to_size and == are compared with u64 / BTreeSet arithmetic. evaluations = singletons + triples. Non-trivial = operand pair with non-empty intersection and non-empty difference; distinct = operand fingerprints.".into(),
+            rule: "cases = all 64 singletons (from_square / to_square / set / from_maybe_square / iteration / reverse_colors) and generated operand triples (uniform u64, ranks, files, diagonals, checkerboard, empty, full, 1-3 bits, all but 1-3 bits, and-/or-mixtures); for each triple iteration order and termination, popcnt, to_square, all 4 forms of & | ^, both forms of &= |= ^= and !, distributivity / De Morgan / xor-associativity, reverse_colors (rank flip, involution) and == are compared with u64 / BTreeSet arithmetic. evaluations = singletons + triples. Non-trivial = operand pair with non-empty intersection and non-empty difference; distinct = operand fingerprints.".into(),
             assumptions: vec!["u64 arithmetic of the Rust standard library".into()],
             trusted_base: vec!["proptest 1.11".into()],
             exhaustive: None,
